@@ -198,6 +198,8 @@ var c17Fragments = []string{
 	// a failing operand under every kind of built-in filter (tolerant ones like default must not swallow it)
 	"{{ sg1(v)|default('d') }}", "{{ sg1(m).k|default('d') }}", "{{ (v|sf1)|default('d') }}", "{{ sg1(zz)|default('d')|sf2 }}", "{{ sg2(v)|upper }}", "{{ sg1(xs)|length }}", "{{ sg1(xs)|first }}", "{{ sg1(xs)|join(',') }}",
 	"{{ sg1(v)|e }}", "{{ sg1(v)|raw }}", "{{ sg1(m)|keys|join }}", "{{ sg1(xs)|slice(0, 1)|join }}", "{{ sg1(xs)|merge([1])|length }}", "{{ sg1(m)|json_encode }}", "{{ sg1(v)|trim|sf1 }}", "{{ sg1(xs)|sort|reverse|join }}",
+	// calls with several arguments of which an early one is computed by something that can fail
+	"{{ sg1(sg2(1), 2) }}", "{{ sg2(v|sf1, 3, sg1(4)) }}", "{{ mm(sg1(1), 2) }}", "{{ _self.mm(v|sf2, sg2(2)) }}", "{% if v is st1(sg1(1), 2) %}t{% else %}e{% endif %}", "{{ max(sg1(1), 2, 3) }}", "{{ [sg1(1), 2]|join(sg2('-'), 'x') }}",
 	// the defined test on a subscript whose container is computed by something that can fail
 	"{% if sg1(xs)[0] is defined %}d{% else %}u{% endif %}", "{{ (xs|sf1)[0] is defined ? 'y' : 'n' }}", "{{ (xs|sf1)[1] is not defined ? 'y' : 'n' }}", "{{ [sg2(1)][0] is defined ? 1 : 0 }}", "{{ sg1(xs)[sg2(0)] is defined ? 1 : 0 }}",
 	"{% for i in sg1(xs)|default([]) %}{{ i }}{% endfor %}", "{% if sg1(zz)|default(false) %}t{% endif %}", "{% set q = sg1(zz)|default('d') %}{{ q }}", "{{ sg1(zz) is defined ? 'y' : 'n' }}", "{{ sg1(zz) is empty ? 'y' : 'n' }}", "{{ sg1(zz) is null ? 'y' : 'n' }}",
@@ -345,7 +347,7 @@ func (p *c17) Run(rec *core.Recorder, seed uint64, idx int, tier string) {
 }
 
 var c17Unresolvable = []string{
-	"{{ v|nosuchfilter }}", "{{ v|sf1|nosuchfilter|sf2 }}", "{{ nosuchfunction(1) }}", "{% if v is nosuchtest %}x{% endif %}", "{% for i in xs|nosuchfilter %}x{% endfor %}", "{{ nosuchfunction(1)[0] is defined ? 1 : 0 }}", "{% if (xs|nosuchfilter)[0] is defined %}d{% else %}u{% endif %}", "{{ nosuchfunction()[0] is not defined ? 1 : 0 }}", "{% apply nosuchfilter %}x{% endapply %}",
+	"{{ v|nosuchfilter }}", "{{ v|sf1|nosuchfilter|sf2 }}", "{{ nosuchfunction(1) }}", "{% if v is nosuchtest %}x{% endif %}", "{% for i in xs|nosuchfilter %}x{% endfor %}", "{{ nosuchfunction(1)[0] is defined ? 1 : 0 }}", "{{ sg1(nosuchfunction(1), 2) }}", "{{ mm(v|nosuchfilter, 2) }}", "{% if v is st1(nosuchfunction(), 2) %}t{% endif %}", "{% if (xs|nosuchfilter)[0] is defined %}d{% else %}u{% endif %}", "{{ nosuchfunction()[0] is not defined ? 1 : 0 }}", "{% apply nosuchfilter %}x{% endapply %}",
 	"{% set q = nosuchfunction() %}", "{% import 'lib' as L %}{{ L.nomacro() }}", "{% from 'lib' import nomacro %}", "{% from 'lib' import lm, nomacro as z %}{{ lm(1) }}", "{{ nomacro_at_all(1) }}", "{{ _self.nomacro() }}",
 	"{% include 'no_such_template' %}", "{% include 'no_such_template' with {'a': 1} only %}", "{% import 'no_such_template' as X %}", "{% from 'no_such_template' import a %}", "{% include 'inc_bad' %}", "{% include 'inc_bad' ignore missing %}",
 	"{% include 'inc_nested_missing' ignore missing %}", "{% include 'inc_ext_missing' ignore missing %}", "{% include 'inc_imp_missing' ignore missing %}", "{% include 'inc_nested_missing' %}",
